@@ -2,7 +2,7 @@
     [tbl_insert] / [tbl_remove] (C08: each adopt adds one record, each unadopt
     removes at most one and is a no-op when none exists, removal saturates and
     deletes empty entries). Re-checked on every run against gen/LinksGen.v. *)
-From Coq Require Import NArith List Lia. Import ListNotations.
+From Coq Require Import NArith List Lia Bool Arith. Import ListNotations.
 From CR Require Import Base.
 From Gen Require Import LinksLang LinksGen.
 Local Open Scope N_scope.
@@ -27,6 +27,34 @@ Proof.
   assert (n <? tbl_get t l = false) as -> by (apply N.ltb_ge; exact H). reflexivity.
 Qed.
 
+(** [Link]'s equality is the model's [link_eqb] (allocation and kind: a
+    Loopback, a Forward and a Backward record to the same allocation are three
+    different keys), and the hash feeds exactly the compared fields, so equal
+    links hash alike *)
+Theorem link_eq_translated a b : g_link_eq a b = link_eqb a b.
+Proof. unfold g_link_eq, link_eqb. apply Bool.andb_comm. Qed.
+
+Definition hval (l : link) (f : hfield) : nat + kind :=
+  match f with HPtr => inl (fst l) | HKind => inr (snd l) end.
+
+Theorem link_hash_consistent a b :
+  g_link_eq a b = true -> map (hval a) g_link_hash_fields = map (hval b) g_link_hash_fields.
+Proof.
+  rewrite link_eq_translated. unfold link_eqb. intros H. apply Bool.andb_true_iff in H as [H1 H2].
+  apply Nat.eqb_eq in H1. destruct a as [x k], b as [y k']. cbn [fst snd] in *. subst y.
+  assert (k = k') by (destruct k, k'; try discriminate; reflexivity). subst k'. reflexivity.
+Qed.
+
+Theorem link_hash_covers_eq :
+  (forall a b, map (hval a) g_link_hash_fields = map (hval b) g_link_hash_fields -> g_link_eq a b = true).
+Proof.
+  intros [x k] [y k'] H. rewrite link_eq_translated. unfold link_eqb. cbn in H. injection H as H1 H2.
+  cbn [fst snd]. subst. rewrite Nat.eqb_refl. destruct k'; reflexivity.
+Qed.
+
+Print Assumptions link_eq_translated.
+Print Assumptions link_hash_consistent.
+Print Assumptions link_hash_covers_eq.
 Print Assumptions links_insert_translated.
 Print Assumptions links_remove_translated.
 Print Assumptions links_remove_saturates.
